@@ -47,6 +47,8 @@ var c10Roots = []c10Root{
 	{"4k3/7p/8/6P1/8/8/8/4K3 b - - 0 1", "h7h5 h7h6 e1d1 d1e1 e8d8 d8e8 g5h6", [2]int{13, 22}},
 	{"1n1k4/8/8/8/3p1p2/8/4P3/1N1R3K w - - 0 1", "e2e4 e2e3 b1c3 c3b1 b8c6 c6b8 f4e3 d4e3", [2]int{12, 16}},
 	{"1n1k4/8/4p3/8/3P1P2/8/8/1N1r3K b - - 0 1", "e6e5 b1c3 c3b1 b8c6 c6b8 f4e5 d4e5", [2]int{12, 16}},
+	{"k7/8/5n2/8/8/5N2/8/K7 w - - 0 1", "f3e5 e5g4 g4f6 f6e4 e4g5 g5f3 f3g1 g1f3 f6g8 g8f6", [2]int{13, 17}},
+	{"r3k3/8/8/8/8/8/8/R3K3 w - - 0 1", "a1b1 b1b8 b8a8 a8b8 b8b1 b1a1 a8c8 c8c1 c1a1 a1c1 c1c8 c8a8", [2]int{11, 15}},
 	{"k7/8/8/8/8/8/8/K7 w - - 0 1", "a1b1 b1a2 a2a1 a1a2 a2b1 b1a1 a8b8 b8a7 a7a8 a8a7 a7b8 b8a8", [2]int{12, 16}},
 	{"4k2r/8/8/8/8/8/8/R3K3 w - - 0 1", "a1a3 a3a2 a2a1 a1a2 a2a3 a3a1 h8h6 h6h7 h7h8 h8h7 h7h6 h6h8", [2]int{12, 16}},
 	{"6k1/8/8/8/2pP4/8/8/R3K3 b Q d3 0 1", "g8h8 h8g8 a1b1 b1a1 e1e2 e2e1 c4d3", [2]int{14, 21}},
